@@ -29,7 +29,7 @@ from typelib.py import classes, compat, inspection, refs
 __all__ = ("static_order", "itertypes", "get_type_graph")
 
 
-@compat.cache
+@refs.cache
 def static_order(
     t: type | str | refs.ForwardRef | compat.TypeAliasType,
 ) -> typing.Sequence[TypeNode]:
